@@ -28,12 +28,15 @@ def runs(draw, tier):
     with_bases = draw(st.booleans())
     t = draw(st.sampled_from(["complex", "density"])) if with_bases else "positive"
     n = draw(st.integers(2, 5 if t != "density" else 4))
-    N = draw(st.integers(1, 12))
+    big = draw(st.integers(0, 24)) == 0
+    N = draw(st.integers(101, 260)) if big else draw(st.integers(1, 12))     # big: more rows than the default batch size of 100
     idx = draw(st.lists(st.integers(0, 2 ** n - 1), min_size=N, max_size=N))
     if N >= 2 and draw(st.booleans()):
         j = draw(st.integers(1, N - 1))
         idx[j] = idx[0]                      # forced duplicate row
-    if N >= 3 and draw(st.integers(0, 2)) > 0:     # construct the tail-batch class (N = mB + r) instead of hoping for it
+    if big:
+        pbs, ep = draw(st.sampled_from([None, None, 64, 100, 128])), draw(st.integers(1, 2))     # None = the library's default (100)
+    elif N >= 3 and draw(st.integers(0, 2)) > 0:     # construct the tail-batch class (N = mB + r) instead of hoping for it
         pbs = draw(st.sampled_from([b for b in range(2, N) if N % b] or [N + 1]))
         ep = draw(st.integers(2, 3))
     else:
@@ -94,15 +97,17 @@ def check(c):
 
     state.compute_batch_gradients = cbg
     guard, diverged = gen.divergence_guard()
-    kw = dict(epochs=c["epochs"], pos_batch_size=c["pbs"], neg_batch_size=c["nbs"], k=c["k"], lr=0.01,
+    kw = dict(epochs=c["epochs"], neg_batch_size=c["nbs"], k=c["k"], lr=0.01,
               callbacks=[LambdaCallback(on_epoch_start=lambda s, e: epochs.append(e)), guard])
     if bases is not None:
         kw["input_bases"] = bases
+    if c["pbs"] is not None:
+        kw["pos_batch_size"] = c["pbs"]
     state.fit(data, **kw)
 
     if diverged[0]:
         return {"nontrivial": False, "excluded": 1, "labels": ["diverged"]}
-    B = c["pbs"]
+    B = c["pbs"] if c["pbs"] is not None else 100      # documented default
     nb = -(-N // B)
     nbs = c["nbs"] or B
     shared = bases is None and nbs == B
@@ -144,7 +149,7 @@ def check(c):
     tail = N % B != 0 and N > B
     nt = tail and c["epochs"] >= 2 and (bases is None or len(set(c["bases"])) >= 2)
     return {"nontrivial": nt, "labels": [f"type={t}", f"form={c['form']}"] + (["N<B"] if N < B else ["N=mB"] if N % B == 0 else ["N=mB+r"]) +
-            (["stub_grad"] if stub else []) + (["bases"] if bases is not None else []) + (["neg!=pos"] if nbs != B else [])}
+            (["stub_grad"] if stub else []) + (["bases"] if bases is not None else []) + (["big(N>100)"] if N > 100 else []) + (["default_batch_size"] if c["pbs"] is None else []) + (["neg!=pos"] if nbs != B else [])}
 
 
 SUBCHECKS = [Sub("epoch_batches", check, strategy=lambda tier: runs(tier), quick=640, thorough=12000)]
